@@ -588,3 +588,134 @@ impl System for HandleScript {
     }
     fn finish(self, _out: &mut StepOut) {}
 }
+
+
+// ---------------------------------------------------------------------------------------------
+// A waker whose clone() panics (C01, memory safety only): a future is parked with an ordinary
+// waker, polled again with the panicking one (the poll may unwind), and dropped in place. Whatever
+// state the unwound poll left it in, the dropped future must not remain in the wait queue - the
+// next operation on the primitive would wake, i.e. read and write, a dropped future. One script per
+// future type; the queue is read through the snapshot hook.
+
+#[derive(Clone, Copy, Debug, PartialEq)]
+pub enum PanicOp {
+    Run(u8),
+}
+pub struct PanicWaker {
+    ran: Option<u8>,
+}
+
+fn panic_step<F: Future + 'static>(what: &str, fut: F, queue_len: &dyn Fn() -> usize, out: &mut StepOut) {
+    let mut f = harness::Pinned::new(fut);
+    let w1 = harness::waker(W_R);
+    match lib(|| f.pin().poll(&mut Context::from_waker(&w1)).is_pending()) {
+        Ok(true) => {}
+        other => {
+            out.v("C01", "script", format!("{}: first poll is not pending ({:?})", what, other));
+            return;
+        }
+    }
+    if queue_len() != 1 {
+        out.v("C01", "script", format!("{}: after the first poll the wait queue holds {} nodes instead of 1", what, queue_len()));
+        return;
+    }
+    let pw = harness::panicking_waker();
+    match lib(|| f.pin().poll(&mut Context::from_waker(&pw)).is_pending()) {
+        Ok(_) => {}
+        Err(p) if p.contains(harness::PANIC_WAKER_MSG) => {}
+        Err(p) => {
+            out.v("C01", "panic", format!("{}: the re-poll panicked with something else than the waker's own panic: {}", what, p));
+            return;
+        }
+    }
+    if let Err(p) = lib(|| f.kill()) {
+        out.v("C01", "panic", format!("{}: dropping the future after the unwound poll panicked: {}", what, p));
+        return;
+    }
+    let n = queue_len();
+    if n != 0 {
+        out.v("C01", "dangling-node", format!("{}: the future was polled with a waker whose clone() panics (the poll unwound) and then dropped; its wait node is still in the queue ({} node(s)): the next wake-up touches a dropped future", what, n));
+    }
+    let _ = harness::take_alloc_counts();
+}
+
+impl System for PanicWaker {
+    type Op = PanicOp;
+    fn new(_cfg: &Cfg) -> Self {
+        PanicWaker { ran: None }
+    }
+    fn enabled(&self) -> Vec<PanicOp> {
+        if self.ran.is_some() {
+            vec![]
+        } else {
+            (0..9).map(PanicOp::Run).collect()
+        }
+    }
+    fn apply(&mut self, op: PanicOp, out: &mut StepOut) {
+        use futures_intrusive::channel::shared as sh;
+        use futures_intrusive::channel::StateId;
+        let PanicOp::Run(i) = op;
+        self.ran = Some(i);
+        harness::reset_thread_state();
+        let tag_of = |t: &Tag| t.0 as u64;
+        match i {
+            0 => {
+                let (tx, rx) = sh::generic_channel::<PL, Tag, FixedHeapBuf<Tag>>(1);
+                let v = tx.verif_shared();
+                panic_step("shared mpmc receive future", rx.receive(), &|| v.verif_snapshot(&tag_of).map_or(0, |s| s.queues[0].len()), out);
+                std::mem::forget((tx, rx));
+            }
+            1 => {
+                let (tx, rx) = sh::generic_channel::<PL, Tag, FixedHeapBuf<Tag>>(0);
+                let v = tx.verif_shared();
+                panic_step("shared mpmc send future", tx.send(Tag(1)), &|| v.verif_snapshot(&tag_of).map_or(0, |s| s.queues[1].len()), out);
+                std::mem::forget((tx, rx));
+            }
+            2 => {
+                let (tx, rx) = sh::generic_oneshot_channel::<PL, Tag>();
+                let v = tx.verif_shared();
+                panic_step("shared oneshot receive future", rx.receive(), &|| v.verif_snapshot(&tag_of).map_or(0, |s| s.queues[0].len()), out);
+                std::mem::forget((tx, rx));
+            }
+            3 => {
+                let (tx, rx) = sh::generic_oneshot_broadcast_channel::<PL, u32>();
+                let v = tx.verif_shared();
+                panic_step("shared oneshot broadcast receive future", rx.receive(), &|| v.verif_snapshot(&|x: &u32| *x as u64).map_or(0, |s| s.queues[0].len()), out);
+                std::mem::forget((tx, rx));
+            }
+            4 => {
+                let (tx, rx) = sh::generic_state_broadcast_channel::<PL, u32>();
+                let v = tx.verif_shared();
+                panic_step("shared state receive future", rx.receive(StateId::new()), &|| v.verif_snapshot(&|x: &u32| *x as u64).map_or(0, |s| s.queues[0].len()), out);
+                std::mem::forget((tx, rx));
+            }
+            5 => {
+                let s = futures_intrusive::sync::GenericSharedSemaphore::<PL>::new(false, 0);
+                let s2 = s.clone();
+                panic_step("shared semaphore acquire future", s.acquire(1), &|| s2.verif_snapshot().queues[0].len(), out);
+                std::mem::forget((s, s2));
+            }
+            6 => {
+                let c: &'static GenericChannel<PL, Tag, FixedHeapBuf<Tag>> = Box::leak(Box::new(GenericChannel::with_capacity(1)));
+                panic_step("borrowed mpmc receive future", c.receive(), &|| c.verif_snapshot(&tag_of).queues[0].len(), out);
+            }
+            7 => {
+                let m: &'static futures_intrusive::sync::GenericMutex<PL, u32> = Box::leak(Box::new(futures_intrusive::sync::GenericMutex::new(0, true)));
+                let g = m.try_lock().expect("fresh mutex");
+                panic_step("mutex lock future", m.lock(), &|| m.verif_snapshot().queues[0].len(), out);
+                std::mem::forget(g);
+            }
+            _ => {
+                let e: &'static futures_intrusive::sync::GenericManualResetEvent<PL> = Box::leak(Box::new(futures_intrusive::sync::GenericManualResetEvent::new(false)));
+                panic_step("event wait future", e.wait(), &|| e.verif_snapshot().queues[0].len(), out);
+            }
+        }
+        if out.viol.is_empty() {
+            out.o("ok");
+        }
+    }
+    fn fingerprint(&self) -> Vec<u8> {
+        vec![self.ran.map_or(255, |v| v)]
+    }
+    fn finish(self, _out: &mut StepOut) {}
+}
